@@ -136,10 +136,14 @@ Fixpoint split_quoted (q : N) (s : str) : option (str * str) :=
     else match split_quoted q s' with Some (f, r) => Some (c :: f, r) | None => None end
   end.
 
+(* spaceAt: width of the white space rune (unicode.IsSpace) at the head of s, or 0 *)
+Definition space_at (s : str) : nat :=
+  let rn := decode_rune s in if is_space (fst rn) then snd rn else 0%nat.
+
 Fixpoint split_bare (s : str) : str * str :=
   match s with
   | [] => ([], [])
-  | c :: s' => if blank c then ([], s) else let p := split_bare s' in (c :: fst p, snd p)
+  | c :: s' => if Nat.ltb 0 (space_at s) then ([], s) else let p := split_bare s' in (c :: fst p, snd p)
   end.
 
 Fixpoint split_args_go (fuel : nat) (s : str) : option (list str) :=
@@ -149,12 +153,14 @@ Fixpoint split_args_go (fuel : nat) (s : str) : option (list str) :=
     match s with
     | [] => Some []
     | c :: s' =>
-      if blank c then split_args_go f s'
+      if Nat.ltb 0 (space_at s) then split_args_go f (skipn (space_at s) s)
       else if (c =? DQ) || (c =? BQ) then
         match split_quoted c s' with
         | None => None
         | Some (fld, rest) =>
-          match split_args_go f rest with Some l => Some ((c :: fld) :: l) | None => None end
+          (* a quoted argument ends at white space or at the end of the line *)
+          if negb (is_nil rest) && Nat.eqb (space_at rest) 0 then None
+          else match split_args_go f rest with Some l => Some ((c :: fld) :: l) | None => None end
         end
       else
         let p := split_bare s in
@@ -269,24 +275,29 @@ Definition unquote (s : str) : option str :=
 
 Inductive dres := DNone | DErr | DPats (ps : list str).
 
+(* only string literals are unquoted *)
 Fixpoint unquote_fields (fs : list str) : option (list str) :=
   match fs with
   | [] => Some []
   | f :: fs' =>
     let rest := unquote_fields fs' in
-    match unquote f with
-    | Some uq => match rest with Some l => Some (uq :: l) | None => None end
-    | None =>
-      match f with
-      | c :: _ => if (c =? DQ) || (c =? BQ) then None
-                  else match rest with Some l => Some (f :: l) | None => None end
-      | [] => match rest with Some l => Some (f :: l) | None => None end
-      end
+    match f with
+    | c :: _ =>
+      if (c =? DQ) || (c =? BQ) then
+        match unquote f with
+        | Some uq => match rest with Some l => Some (uq :: l) | None => None end
+        | None => None
+        end
+      else match rest with Some l => Some (f :: l) | None => None end
+    | [] => match rest with Some l => Some (f :: l) | None => None end
     end
   end.
 
 (* ParsePatterns on one comment; [text] is Comment.Text (starts with two slashes) *)
 Definition parse_comment (text : str) : dres :=
+  match strip_prefix (SLASH :: SLASH :: GOEMBED) text with
+  | None => DNone                                   (* the directive follows the slashes immediately *)
+  | Some _ =>
   let line := trim_space (trim_prefix [SLASH; SLASH] text) in
   match parse_directive line with
   | None => DNone
@@ -296,6 +307,7 @@ Definition parse_comment (text : str) : dres :=
     | None => DErr
     | Some fields => match unquote_fields fields with Some ps => DPats ps | None => DErr end
     end
+  end
   end.
 
 (* rendering an argument the documented ways (for the round trip theorem) *)
@@ -314,12 +326,12 @@ Definition quote_arg (s : style) (a : str) : str :=
   | Double => DQ :: esc_dq a ++ [DQ]
   end.
 
-(* a bare argument: not empty, no blank, does not start with a quote character *)
+(* a bare argument: not empty, ASCII without white space, does not start with a string quote *)
 Definition style_ok (s : style) (a : str) : bool :=
   match s with
   | Bare => match a with
             | [] => false
-            | c :: _ => negb ((c =? DQ) || (c =? BQ) || (c =? SQ)) && forallb (fun b => negb (blank b)) a
+            | c :: _ => negb ((c =? DQ) || (c =? BQ)) && forallb (fun b => (b <? 128) && negb (is_space b)) a
             end
   | Back => forallb (fun b => negb (b =? BQ) && negb (b =? 13)) a
   | Double => forallb (fun b => (b <? 128) && negb (b =? 10)) a
@@ -616,22 +628,27 @@ Definition rel_of (chain : list (str * node)) : str := join_slash (map fst chain
 
 (* error classes *)
 Definition E_SYNTAX := 1. Definition E_MODULE := 2. Definition E_NAME := 3. Definition E_INDIR := 4.
-Definition E_IRREG := 5. Definition E_EMPTY := 6. Definition E_NOMATCH := 7.
+Definition E_IRREG := 5. Definition E_EMPTY := 6. Definition E_NOMATCH := 7. Definition E_NONDIR := 8.
 
 Inductive res (A : Type) := Ok (a : A) | Err (e : N).
 Arguments Ok {A} a. Arguments Err {A} e.
 
+Definition is_dir (n : node) : bool := match n with Dir _ => true | _ => false end.
+
 (* CheckPath: from the match upwards to the package directory (the dirOK
-   cache only short-cuts directories that already passed the same checks) *)
-Fixpoint check_up (rc : list (str * node)) (first : bool) : option N :=
+   cache only short-cuts directories that already passed the same checks).
+   [nd] = the in-non-directory test of cmd/go is made (the code since the fix;
+   nd = false is the code before it). *)
+Fixpoint check_up (nd : bool) (rc : list (str * node)) (first : bool) : option N :=
   match rc with
   | [] => None
-  | (name, nd) :: up =>
-    if has_gomod nd then Some E_MODULE
+  | (name, n) :: up =>
+    if has_gomod n then Some E_MODULE
+    else if nd && negb first && negb (is_dir n) then Some E_NONDIR
     else if bad_name name then Some (if first then E_NAME else E_INDIR)
-    else check_up up false
+    else check_up nd up false
   end.
-Definition check_path (chain : list (str * node)) : option N := check_up (rev chain) true.
+Definition check_path (nd : bool) (chain : list (str * node)) : option N := check_up nd (rev chain) true.
 
 (* the WalkDir callback below a matched directory: files in walk order *)
 Fixpoint walk (all : bool) (prefix : str) (n : node) {struct n} : list (str * str) :=
@@ -664,8 +681,8 @@ Definition add_seen (seen : list (str * str)) (f : str * str) : list (str * str)
 Definition st := (list (str * str) * list str)%type.
 Definition add_file (s : st) (f : str * str) : st := (add_seen (fst s) f, add_have (snd s) (fst f)).
 
-Definition do_match (all : bool) (s : st) (chain : list (str * node)) : res st :=
-  match check_path chain with
+Definition do_match (nd all : bool) (s : st) (chain : list (str * node)) : res st :=
+  match check_path nd chain with
   | Some e => Err e
   | None =>
     match last chain ([], Irreg) with
@@ -680,10 +697,10 @@ Definition do_match (all : bool) (s : st) (chain : list (str * node)) : res st :
     end
   end.
 
-Fixpoint do_matches (all : bool) (s : st) (ms : list (list (str * node))) : res st :=
+Fixpoint do_matches (nd all : bool) (s : st) (ms : list (list (str * node))) : res st :=
   match ms with
   | [] => Ok s
-  | m :: ms' => match do_match all s m with Err e => Err e | Ok s' => do_matches all s' ms' end
+  | m :: ms' => match do_match nd all s m with Err e => Err e | Ok s' => do_matches nd all s' ms' end
   end.
 
 Definition ALLP : str := [97; 108; 108; 58].        (* all: *)
@@ -693,18 +710,18 @@ Definition cut_all (pat : str) : bool * str :=
 Definition pattern_ok (g : str) : bool :=
   match pmatch g [] with None => false | Some _ => valid_pattern g end.
 
-Definition do_pattern (root : node) (seen : list (str * str)) (pat : str) : res (list (str * str)) :=
+Definition do_pattern (nd : bool) (root : node) (seen : list (str * str)) (pat : str) : res (list (str * str)) :=
   let ag := cut_all pat in
   if negb (pattern_ok (snd ag)) then Err E_SYNTAX
-  else match do_matches (fst ag) (seen, []) (glob root (snd ag)) with
+  else match do_matches nd (fst ag) (seen, []) (glob root (snd ag)) with
        | Err e => Err e
        | Ok (seen', have) => if is_nil have then Err E_NOMATCH else Ok seen'
        end.
 
-Fixpoint resolve_go (root : node) (pats : list str) (seen : list (str * str)) : res (list (str * str)) :=
+Fixpoint resolve_go (nd : bool) (root : node) (pats : list str) (seen : list (str * str)) : res (list (str * str)) :=
   match pats with
   | [] => Ok seen
-  | p :: ps => match do_pattern root seen p with Err e => Err e | Ok s => resolve_go root ps s end
+  | p :: ps => match do_pattern nd root seen p with Err e => Err e | Ok s => resolve_go nd root ps s end
   end.
 
 (* sort.Strings over the keys of the map *)
@@ -717,11 +734,13 @@ Definition sort_by {A} (lt : A -> A -> bool) (l : list A) : list A := fold_right
 
 Definition file_ltb (a b : str * str) : bool := str_ltb (fst a) (fst b).
 
-Definition resolve (root : node) (pats : list str) : res (list (str * str)) :=
-  match resolve_go root pats [] with
+Definition resolve_gen (nd : bool) (root : node) (pats : list str) : res (list (str * str)) :=
+  match resolve_go nd root pats [] with
   | Err e => Err e
   | Ok seen => Ok (sort_by file_ltb seen)
   end.
+(* ResolvePatterns *)
+Definition resolve : node -> list str -> res (list (str * str)) := resolve_gen true.
 
 (* ---------- BuildFSEntries ---------- *)
 (* path.Dir on a clean relative slash path *)
